@@ -405,7 +405,21 @@ def run(chk, facts, tier, only=None):
                        "at its own type comes back as `record { a = 2 }`", where=f"{h['span']['file']}:{a.get('ln')}",
                        ok_detail="the dropping arm also tests the entry's value")
 
-    for rid, desc, fn in (("C10.R11", "untyped record decoding drops only the decoder's skipped-field entries", r11),
+    def r12():
+        """`blob` is `vec nat8` through any number of aliases: the test the annotator, the typed encoder and the decoder share (`TypeInner::is_blob`)
+        must resolve the element type completely (trace_type / rec_find_type), not by a single environment lookup."""
+        h = c.fn(r"^candid::types::internal::TypeInner::is_blob$")
+        chk.analysed(h["key"])
+        full = [x for x in walk(h["body"]) if x.get("k") in ("call", "mcall") and re.search(r"TypeEnv::(trace_type\w*|rec_find_type\w*)$", callee(x) or "")]
+        single = [x for x in walk(h["body"]) if x.get("k") in ("call", "mcall") and re.search(r"TypeEnv::find_type$", callee(x) or "")]
+        chk.expect(bool(full) and not single, "is_blob:element-type-fully-resolved",
+                   f"TypeInner::is_blob looks the element type up with {'TypeEnv::find_type (one step)' if single else 'no resolution at all'}: with "
+                   f"`type byte = nat8; type octet = byte`, `vec octet` is not recognised as blob — `blob \"..\"` is rejected by annotate_type at that type, and "
+                   f"untyped decoding at it returns a vec of nat8 values where typed decoding returns a blob",
+                   where=f"{h['span']['file']}:{(single or [h['body']])[0].get('ln')}", ok_detail="trace_type on the element")
+
+    for rid, desc, fn in (("C10.R12", "blob is recognised through any chain of aliases", r12),
+                          ("C10.R11", "untyped record decoding drops only the decoder's skipped-field entries", r11),
                           ("C10.R5", "no unreviewed panic site on the annotate / untyped-encode path", r5),
                           ("C10.R1", "annotation accepts exactly the allowed (value, type) constructor pairs, in both parser modes", r1),
                           ("C10.R2", "value constructor / type / serializer / visitor rows agree", r2),
